@@ -3,7 +3,7 @@
 # (seeded/<id>/patch.diff applied to /repo, check run, /repo restored) without
 # re-confirming suite/demo; prints one line per change and a summary. Expected: rc=1 for all
 # (owned by a neighbouring check, which is run instead: C02-c by C11, C02-d by C10, C01-g and C01-i
-# by C03, C01-h by C08, C01-j by C11, C15-i by C06, C17-j by C16, C03-l by C15, C07-k and C07-m by C16, C08-l by C03, C01-n by C03, C02-m by C10, C02-n by C19, C08-n by C16; C04-g and C20-g are outside what
+# by C03, C01-h by C08, C01-j by C11, C15-i by C06, C17-j by C16, C03-l by C15, C07-k and C07-m by C16, C08-l by C03, C01-n by C03, C02-m by C10, C02-n by C19, C08-n by C16, C01-o by C11, C15-o by C19; C04-g and C20-g are outside what
 # their property demands (DESIGN 13.1): rc=0 expected).
 cd "$(dirname "$0")/.."
 export GOFLAGS=-mod=mod GOPROXY=off GOSUMDB=off GOTOOLCHAIN=local
@@ -18,6 +18,7 @@ for d in seeded/*/; do
   case "$id" in
     C02-c) chk=C11;; C02-d) chk=C10;; C01-g|C01-i) chk=C03;; C01-h) chk=C08;; C01-j) chk=C11;;
     C15-i) chk=C06;; C17-j) chk=C16;; C03-l) chk=C15;; C07-k|C07-m) chk=C16;; C08-l|C01-n) chk=C03;; C02-m) chk=C10;; C02-n) chk=C19;; C08-n) chk=C16;;
+    C01-o) chk=C11;; C15-o) chk=C19;;
     C04-g|C20-g) want=0;;
   esac
   git -C /repo apply "$PWD/$d/patch.diff" || { echo "$id patch does not apply"; miss=$((miss+1)); continue; }
